@@ -776,7 +776,7 @@ func (w *World) setup() bool {
 			w.cbYield("cb.affinity")
 			md, _ := metadata.FromIncomingContext(ch.Context())
 			if v := md.Get("x-verif-key"); len(v) > 0 {
-				return v[0]
+				return keyVal(v[0])
 			}
 			return nil
 		}
@@ -1100,6 +1100,17 @@ func (w *World) openNested() bool {
 	return true
 }
 
+// keyVal: the affinity key a case's key string stands for. Keys are arbitrary comparable values, not just strings: "#7"
+// is the int 7, anything else the string itself - so "7" and "#7" are two different keys that print alike.
+func keyVal(k string) any {
+	if strings.HasPrefix(k, "#") {
+		if n, err := strconv.Atoi(k[1:]); err == nil {
+			return n
+		}
+	}
+	return k
+}
+
 // defaultChannel returns the channel RPCs use unless they say otherwise.
 func (w *World) channelFor(sel string) grpc.ClientConnInterface {
 	cfg := &w.c.Cfg
@@ -1109,7 +1120,7 @@ func (w *World) channelFor(sel string) grpc.ClientConnInterface {
 		if k == "<nil>" {
 			return w.handler.KeyAsChannel(nil)
 		}
-		return w.handler.KeyAsChannel(k)
+		return w.handler.KeyAsChannel(keyVal(k))
 	case strings.HasPrefix(sel, "tunnel:"):
 		i, _ := strconv.Atoi(strings.TrimPrefix(sel, "tunnel:"))
 		w.mu.Lock()
@@ -1329,7 +1340,7 @@ func (w *World) snapshot(phase string) *Snapshot {
 				sn.KeyReady = append(sn.KeyReady, "<nil>")
 			}
 			for k := range keys {
-				if w.handler.KeyAsChannel(k).Ready() {
+				if w.handler.KeyAsChannel(keyVal(k)).Ready() {
 					sn.KeyReady = append(sn.KeyReady, k)
 				}
 			}
